@@ -1,5 +1,6 @@
 import YncaVerif.Lemmas.AcceptProj
 import YncaVerif.Lemmas.AcceptC16
+import YncaVerif.Lemmas.AcceptC12
 /-! # The tie itself, as theorems
 
 The B2 correspondence offers every observable trace of the real library to the compiled acceptor
@@ -90,6 +91,35 @@ theorem Tie_C16_observed_no_write_after_close (P : Params) (hidden : List String
     have hclosed := (after_close_return P s0 hpre.reachable hret).1
     exact no_write_when_closed P s0 s0' l _ x hclosed hstep rfl
 
+/-- **C12 on the observed trace** (the receiver never sees a long silence): in every accepted trace (writes visible), as long as
+    nothing went wrong so far — no link fault, no write fault, no `close()` among the events before — every observed event (a
+    write, a callback, the end of the observation) lies within one keep-alive interval plus one command spacing of the last observed
+    write -/
+theorem Tie_C12_observed_gap (P : Params) (hidden : List String) (evs : List (Nat × Ev))
+    (hw : hidden.contains "write" = false) (h : (accept P hidden evs).accepted = true)
+    (pre rest : List (Nat × Ev)) (tm : Nat) (e : Ev) (he : evs = pre ++ (tm, e) :: rest)
+    (hq : quiet pre = true) (hne : traceWrites pre ≠ []) :
+    tm ≤ ((traceWrites pre).getLast hne).1 + P.spacing + P.kaInterval := by
+  obtain ⟨s, hs⟩ := accept_sound P hidden evs h
+  have he' : evs = (pre ++ [(tm, e)]) ++ rest := by rw [he]; simp
+  obtain ⟨s1, hs1⟩ := hs.prefix _ _ he'
+  obtain ⟨s0, hpre, hnow⟩ := hs1.last_time pre tm e rfl
+  have hH := hpre.healthy hq
+  have hwr := hpre.writes hw
+  have hwire : s0.wire ≠ [] := by
+    intro hc
+    have : wireTT s0 = [] := by simp [wireTT, hc]
+    rw [← hwr] at this; exact hne this
+  have hI1 := C12L.I1_inv P s0 hpre.reachable
+  have hspc : s0.spc ≠ .notStarted := fun hc => hwire (hI1.2 hc)
+  have hgap := C12L.gap_inv P s0 hpre.reachable ⟨hspc, hH.notDone, hH.notDead, hH.loss, hH.closeStarted, hH.closeUnpub, hH.writeFault, hH.portOpen⟩
+  rw [lastTx_of_wire s0 hwire] at hgap
+  have hlast : ((wireTT s0).getLast (by simpa [wireTT] using hwire)).1 = ((traceWrites pre).getLast hne).1 := by
+    congr 1
+    simp only [hwr]
+  rw [hlast, hnow] at hgap
+  exact hgap
+
 /-! non-vacuity: the acceptor accepts the start of a real session (reader started, two probes 100 ms apart)
 and rejects the same trace with the second probe 50 ms early -/
 def P0 : Params := ⟨100000, 30000000, 2000000, 1000000, 0⟩
@@ -101,6 +131,7 @@ def bad : List (Nat × Ev) :=
 
 example : (accept P0 hid good).accepted = true ∧ (accept P0 hid bad).accepted = false := by decide +kernel
 example : (traceWrites good).map (·.1) = [0, 100000] := by decide
+example : quiet good = true ∧ traceWrites good ≠ [] := by decide
 /-- the scan recognises a returned close(): reader started, close() called by thread 10, its return observed -/
 example : (scan [(0, .input .startR), (5, .input (.callClose 10)), (7, .output (.callRet 10))]).closed = true := by decide
 
